@@ -597,7 +597,7 @@ func (e *Env) eval(st *State, fr *Frame, v ssa.Value) Val {
 var wellKnownBigGlobals = map[string]int64{
 	"github.com/ethereum/go-ethereum/common.Big0": 0, "github.com/ethereum/go-ethereum/common.Big1": 1, "github.com/ethereum/go-ethereum/common.Big2": 2,
 	"github.com/ethereum/go-ethereum/common.Big3": 3, "github.com/ethereum/go-ethereum/common.Big32": 32, "github.com/ethereum/go-ethereum/common.Big256": 256,
-	"github.com/ethereum/go-ethereum/common.Big257": 257,
+	"github.com/ethereum/go-ethereum/common.Big257":                 257,
 	"github.com/ethereum/go-ethereum/params.DifficultyBoundDivisor": 2048, "github.com/ethereum/go-ethereum/params.GenesisDifficulty": 131072,
 	"github.com/ethereum/go-ethereum/params.MinimumDifficulty": 131072, "github.com/ethereum/go-ethereum/params.DurationLimit": 13,
 }
